@@ -359,6 +359,14 @@ func vcNewNet(t *testing.T, in *vcInput, runID int) *vcNet {
 		cs.scheduleRound0(&cs.RoundState) // what OnStart does: the NewHeight timeout is in the ticker
 		net.nodes[name] = node
 	}
+	// The block a correct proposer creates at the initial height is determined by the proposer alone (genesis
+	// time, empty mempool), so a faulty validator can vote for it before it has been proposed: pre-register
+	// "B<name>" for every correct validator (the real proposal later hashes to the same block).
+	for _, name := range net.corr {
+		addr := st.Validators.Validators[net.index[name]].Address
+		b, bp := st.MakeBlock(1, []types.Tx{}, types.NewCommit(0, 0, types.BlockID{}, nil), nil, addr)
+		net.register("B"+name, b, bp)
+	}
 	// Byzantine blocks: Z0 (valid, carries a tx) and ZX (fails ValidateBlock: wrong AppHash)
 	byzProposer := st.Validators.Validators[0].Address
 	for _, b := range in.Byz {
@@ -1080,15 +1088,23 @@ func TestVerifCons(t *testing.T) {
 	w := &vcWriter{f: f, enc: json.NewEncoder(f)}
 	skipped, executed := 0, 0
 	run := 0
+	var skipLog *json.Encoder
+	if sf, err := os.Create(outDir + "/skipped.ndjson"); err == nil {
+		defer sf.Close()
+		skipLog = json.NewEncoder(sf)
+	}
 	for _, s := range in.Scheds {
 		run++
 		net := vcNewNet(t, &in, run)
 		w.emit(net.resetEvent(run, map[string]interface{}{"sched": s.ID, "kind": "tlc"}))
-		for _, st := range s.Steps {
+		for si, st := range s.Steps {
 			if net.step(w, run, st) {
 				executed++
 			} else {
 				skipped++
+				if skipLog != nil {
+					_ = skipLog.Encode(map[string]interface{}{"sched": s.ID, "index": si, "step": st})
+				}
 			}
 		}
 		if in.RandTail > 0 {
